@@ -85,6 +85,58 @@ def wait_probe(chk, d, quick):
                     break
 
 
+def detection_probe(chk, d):
+    """The host byte order is DETECTED by a preprocessor cascade in w2c2_base.h. The cascade (the real header text between the
+    WASM_LITTLE_ENDIAN definition and '#endif /* WASM_ENDIAN */') is preprocessed by gcc and clang with all predefined macros
+    removed (-undef) and the macro environment of a number of toolchains defined instead; the selected order must be the one that
+    environment stands for."""
+    src = open(os.path.join(env.REPO, 'w2c2', 'w2c2_base.h')).read()
+    try:
+        a = src.index('#define WASM_LITTLE_ENDIAN')
+        b = src.index('#endif /* WASM_ENDIAN */') + len('#endif /* WASM_ENDIAN */')
+    except ValueError:
+        chk.inconclusive('byte-order detection block not found in w2c2_base.h')
+        return
+    inc = os.path.join(d, 'fakeinc')
+    for sub, order in (('be', '__BIG_ENDIAN'), ('le', '__LITTLE_ENDIAN')):
+        os.makedirs(os.path.join(inc, sub), exist_ok=True)
+        open(os.path.join(inc, sub, 'endian.h'), 'w').write('#define __LITTLE_ENDIAN 1234\n#define __BIG_ENDIAN 4321\n#define __BYTE_ORDER %s\n' % order)
+    tu = os.path.join(d, 'detect.c')
+    open(tu, 'w').write(src[a:b] + '\nDETECTED_ORDER=WASM_ENDIAN\n')
+    GCC46 = ['-D__ORDER_LITTLE_ENDIAN__=1234', '-D__ORDER_BIG_ENDIAN__=4321', '-D__ORDER_PDP_ENDIAN__=3412']
+    envs = [
+        ('gcc>=4.6 big-endian target', GCC46 + ['-D__BYTE_ORDER__=4321'], 1),
+        ('gcc>=4.6 little-endian target', GCC46 + ['-D__BYTE_ORDER__=1234'], 0),
+        ('gcc>=4.6 big-endian target that also defines an LE-looking arch macro', GCC46 + ['-D__BYTE_ORDER__=4321', '-D__ARMEL__=1'], 1),
+        ('old gcc on big-endian glibc', ['-D__GLIBC__=2', '-I', os.path.join(inc, 'be')], 1),
+        ('old gcc on little-endian glibc', ['-D__GLIBC__=2', '-I', os.path.join(inc, 'le')], 0),
+        ('Solaris cc SPARC (_BIG_ENDIAN)', ['-D_BIG_ENDIAN=1', '-D__sparc=1'], 1),
+        ('Solaris cc x86 (_LITTLE_ENDIAN)', ['-D_LITTLE_ENDIAN=1', '-D__i386__=1'], 0),
+        ('Apple gcc 4.0 PowerPC (__BIG_ENDIAN__)', ['-D__BIG_ENDIAN__=1', '-D__ppc__=1'], 1),
+        ('Apple gcc 4.0 i386 (__LITTLE_ENDIAN__)', ['-D__LITTLE_ENDIAN__=1', '-D__i386__=1'], 0),
+    ]
+    for m in ('__sparc', '__sparc__', '_POWER', '__powerpc__', '__ppc__', '__hpux', '__hppa', '_MIPSEB', '__MIPSEB__', '__AARCH64EB__', '__ARMEB__', '__ARM_BIG_ENDIAN', '__s390__'):
+        envs.append(('architecture macro %s only' % m, ['-D%s=1' % m], 1))
+    for m in ('__i386__', '_M_IX86', '__alpha__', '__ia64__', '__amd64__', '__x86_64__', '_M_X64', '_M_ARM64', '__AARCH64EL__', '__ARMEL__', '_MIPSEL', '__MIPSEL__'):
+        envs.append(('architecture macro %s only' % m, ['-D%s=1' % m], 0))
+    for cc in ('gcc', 'clang'):
+        for name, defs, want in envs:
+            r = env.run([cc, '-E', '-P', '-undef', '-nostdinc'] + defs + [tu], timeout=60)
+            chk.ev()
+            chk.distinct(('detect', cc, name))
+            got = None
+            for l in r.out.splitlines():
+                if l.startswith('DETECTED_ORDER='):
+                    got = l.split('=')[1].strip()
+            if r.rc != 0 or got not in ('0', '1'):
+                chk.violation('C19:detection:%s' % ('big' if want else 'little'), 'byte-order cascade under the macro environment "%s" (%s): preprocessing failed or no order selected: %s' % (name, cc, (r.err or r.out)[-200:]),
+                              {'detect.c': open(tu).read(), 'defs.txt': ' '.join(defs)})
+            elif int(got) != want:
+                chk.violation('C19:detection:%s' % ('big' if want else 'little'), 'byte-order cascade under the macro environment "%s" (%s) selects %s-endian, the environment is %s-endian' % (
+                    name, cc, 'big' if got == '1' else 'little', 'big' if want else 'little'), {'detect.c': open(tu).read(), 'defs.txt': ' '.join(defs)})
+    chk.observe('detection_environments', len(envs), 'set')
+
+
 def high_probe(chk, d):
     """Accesses at effective addresses around and above 2^31 on a memory larger than 2 GiB under both byte-order settings."""
     outs = {}
@@ -207,6 +259,7 @@ def main(chk):
                     b_be['f32'], b_be['f64'], bswap(x & 0xffffffff, 32), bswap(x, 64)), files)
     wait_probe(chk, d, quick)
     high_probe(chk, d)
+    detection_probe(chk, d)
     chk.observe('flavours_probed', 14 + 9 + 14 + 42 + 7, 'set')
     chk.sample({'case': 'i64_atomic_rmw16_add_u on window X (BE build) vs on R(X) (LE build): same return value, after-windows related by one 2-byte reversal'})
     # ---- module level: translated histories must give the same call results on both builds (thorough, cheap enough for quick too)
